@@ -1345,7 +1345,7 @@ func (fr *Frame) evalCall(x *ECall, env *evalEnv) (Value, error) {
 			return nil, fmt.Errorf("is(err, err)")
 		}
 		r.declareOnce("(declare-fun err.wraps (" + sRef + " " + sRef + ") Bool)")
-		return boolV(or(and(eq(ia.Tag, ib.Tag), eq(ia.Ref, ib.Ref)), "(err.wraps "+ia.Ref+" "+ib.Ref+")")), nil
+		return boolV(or(eq(ia.Ref, ib.Ref), "(err.wraps "+ia.Ref+" "+ib.Ref+")")), nil
 	case "mulok":
 		// mulok(a, b): the signed product a*b does not overflow
 		a, err := arg(0)
